@@ -1,8 +1,312 @@
 import HapVerif.Model.C18
+import HapVerif.Generated.Facts
 import HapVerif.Drv.Common
+/-!
+Driver of C18.  Case lines (see harness/cmd/hv/c18.go):
+
+  `C18 <glob> <ing>[,<ing>...] => <path>|...||<binds>`   a full converter Sync + rendered haproxy.cfg
+  `C18 alloc <rs> <re> <op>[,<op>...] => <res>,...||<binds>`   Frontend.AcquireAuthBackendName & co
+
+The abstraction of the concrete annotation values of the harness grammar (what each auth-url means
+to `setAuthExternal`) is the table `urlOf` below.
+-/
 namespace HapVerif.C18
 open HapVerif.Drv
 
-def handle (_args : List String) (_impl : String) : Verdict := bad "C18-not-implemented"
+def portBase : Int := 14415
+
+/-- which `buildBackendOAuth` the tree under test has: read from the regenerated facts
+(the receiver of the precedence test and what the branch assigns) -/
+def currentFixed : Bool :=
+  Facts.c18OAuthPrecedenceReads == "config" &&
+  !Facts.c18OAuthPrecedenceAssigns.contains "path.AuthExternal.AlwaysDeny = false"
+
+/-! ### grammar -> abstract values -/
+
+def mkUrl (proto : Proto) (target : Nat) (path : String) (parseOk := true) (isIP := true)
+    (dnsOk := true) (hasPort := true) (hasNs := true) (svcFound := true) : UrlAnn :=
+  .val { parseOk, proto, isIP, dnsOk, hasPort, hasNs, svcFound, target, path }
+
+def urlOf : String → Option UrlAnn
+  | "-" => some .absent
+  | "e" => some .empty
+  | "h1" => some (mkUrl .http 1 "/auth")                 -- http://10.0.0.1/auth
+  | "h2" => some (mkUrl .http 2 "/check")                -- http://10.0.0.2:8080/check
+  | "hs" => some (mkUrl .https 3 "/auth")                -- https://10.0.0.1/auth
+  | "hq" => some (mkUrl .http 1 "")                      -- http://10.0.0.1
+  | "hl" => some (mkUrl .http 4 "/auth" (isIP := false)) -- http://localhost/auth
+  | "hn" => some (mkUrl .http 0 "/auth" (isIP := false) (dnsOk := false))  -- unresolvable name
+  | "s1" => some (mkUrl .svc 5 "/auth")                  -- svc://authsvc:8080/auth
+  | "sv" => some (mkUrl .svc 5 "/auth")                  -- service://authsvc:8080/auth
+  | "sm" => some (mkUrl .svc 0 "/auth" (svcFound := false))   -- svc://missing:8080/auth
+  | "sp" => some (mkUrl .svc 0 "/auth" (hasPort := false))    -- svc://authsvc/auth
+  | "sx" => some (mkUrl .svc 0 "/auth" (svcFound := false))   -- svc://authsvc:9999/auth
+  | "so" => some (mkUrl .svc 6 "/auth")                  -- svc://other/authsvc2:8080/auth
+  | "sn" => some (mkUrl .svc 0 "/auth" (svcFound := false))   -- svc://other/nope:8080/auth
+  | "bp" => some (mkUrl .other 0 "/auth")                -- bad://10.0.0.1/auth
+  | "mf" => some (mkUrl .http 0 "" (parseOk := false))   -- ::malformed
+  | "sq" => some (mkUrl .http 0 "" (parseOk := false))   -- http://10.0.0.1/a b
+  | _ => none
+
+def plcOf : String → Option Plc
+  | "-" => some .absent
+  | "b" => some .backend
+  | "B" => some .backend      -- "Backend"
+  | "f" => some .frontend
+  | "F" => some .frontend     -- "FRONTEND"
+  | "t" => some .other        -- "fronted"
+  | _ => none
+
+def pathName : Nat → Option String
+  | 0 => some "/a" | 1 => some "/b" | 2 => some "/c" | 9 => some "/oauth2"
+  | _ => none
+
+def svcName : Nat → Option String
+  | 0 => some "echo0" | 1 => some "echo1" | 2 => some "oauth2proxy"
+  | _ => none
+
+structure IngTok where
+  host : Nat
+  path : Nat
+  svc : Nat
+  mtch : String
+  url : String
+  plc : String
+  oauth : String
+  signin : String
+
+def parseIng (s : String) : Option IngTok :=
+  match s.splitOn "." with
+  | [h, p, v, m, u, c, o, g] => do
+    pure { host := ← h.toNat?, path := ← p.toNat?, svc := ← v.toNat?, mtch := m, url := u, plc := c, oauth := o, signin := g }
+  | _ => none
+
+/-- id of the backend `findBackend(namespace, "/oauth2")` returns: the service of the first
+ingress that declares the path /oauth2 (the generator never declares two different ones) -/
+def oauthBackend (ings : List IngTok) : Option String :=
+  match ings.find? (·.path = 9) with
+  | some g => (svcName g.svc).map fun n => "default_" ++ n ++ "_8080"
+  | none => none
+
+def oauthOf (ings : List IngTok) : String → Option OAuthAnn
+  | "-" => some .absent
+  | "o" | "d" =>
+    match oauthBackend ings with
+    | some id => some (.val true true "/oauth2" id)
+    | none => some (.val true false "/oauth2" "")
+  | "m" => some (.val true false "/nope" "")
+  | "u" | "e" => some (.val false false "/oauth2" "")
+  | _ => none
+
+def pathOf (ings : List IngTok) (g : IngTok) : Option PathIn := do
+  let pn ← pathName g.path
+  let _ ← svcName g.svc
+  let hm ← (match g.mtch with | "b" => some "beg" | "p" => some "dir" | "e" => some "str" | _ => none)
+  let key := "h" ++ toString g.host ++ ".local#" ++ pn
+  let sg ← (match g.signin with | "-" => some false | "s" => some true | _ => none)
+  pure { host := g.host, backend := g.svc, ord := g.host * 16 + g.path, key := key, hamatch := hm,
+         sub := if g.mtch = "e" then key else key ++ "/sub",
+         url := ← urlOf g.url, plc := ← plcOf g.plc, oauth := ← oauthOf ings g.oauth, signin := sg }
+
+def parseGlob (s : String) : Option (Bool × Bool × Int × Int) :=
+  match s.toList with
+  | 'x' :: x :: 'l' :: l :: 'r' :: r =>
+    let rng : Option (Int × Int) :=
+      match String.ofList r with
+      | "d" => some (portBase, 14499)
+      | "i" => some (0, -1)
+      | n => n.toNat?.map fun k => (portBase, portBase + (k : Int) - 1)
+    match rng with
+    | some (rs, re) => if (x = '0' ∨ x = '1') ∧ (l = '0' ∨ l = '1') then some (x = '1', l = '1', rs, re) else none
+    | none => none
+  | _ => none
+
+def parseWorld (glob ings : String) : Option World := do
+  let (x, l, rs, re) ← parseGlob glob
+  let toks ← (ings.splitOn ",").mapM parseIng
+  let ps ← toks.mapM (pathOf toks)
+  pure { isExternal := x, hasLua := l, rangeStart := rs, rangeEnd := re, paths := ps }
+
+/-! ### output -/
+
+def showName : AuthName → String
+  | .none => "-"
+  | .proxy p => "a" ++ toString (p - portBase)
+  | .backend id => if id = "default_oauth2proxy_8080" then "o" else "?" ++ id
+
+def dash (s : String) : String := if s = "" then "-" else s.replace " " "%20"
+
+def showRec (r : AuthRec) : String :=
+  (if r.alwaysDeny then "D" else "-") ++ "," ++ showName r.name ++ "," ++ dash r.authPath ++ "," ++
+    dash r.allowedPath ++ "," ++ (if r.redirect then "R" else "-")
+
+def showRule : Rule → String
+  | .deny => "deny"
+  | .icpt n p a => "icpt(" ++ showName n ++ "," ++ p ++ "," ++ dash a ++ ")"
+  | .unless false a => "unless-deny(" ++ dash a ++ ")"
+  | .unless true a => "unless-redir(" ++ dash a ++ ")"
+
+def showRules (rs : List Rule) : String := if rs.isEmpty then "-" else "+".intercalate (rs.map showRule)
+
+def showBinds (bs : List Bind) : String :=
+  if bs.isEmpty then "-" else ",".intercalate (bs.map fun b => "a" ++ toString (b.port - portBase) ++ ">t" ++ toString b.target)
+
+def showPath (w : World) (st : St) (i : Nat) : String :=
+  let o := obsOf w st i
+  "B=" ++ showRec (st.brec i) ++ ";F=" ++ (match st.frec i with | some r => showRec r | none => "nil") ++
+    ";RB=" ++ showRules o.rb ++ ";R0=" ++ showRules o.r0 ++ ";R1=" ++ showRules o.r1
+
+def showState (w : World) (st : St) : String :=
+  "|".intercalate ((List.range w.paths.length).map (showPath w st)) ++ "||" ++ showBinds st.binds
+
+/-! ### input (implementation side) -/
+
+def parseName (s : String) : Option AuthName :=
+  if s = "-" then some .none
+  else if s = "o" then some (.backend "default_oauth2proxy_8080")
+  else match s.toList with
+    | 'a' :: r => (String.ofList r).toInt?.map fun k => .proxy (portBase + k)
+    | '?' :: r => some (.backend (String.ofList r))
+    | _ => none
+
+def undash (s : String) : String := if s = "-" then "" else s
+
+def stripParen (pre s : String) : Option String :=
+  if s.startsWith (pre ++ "(") ∧ s.endsWith ")" then
+    some (((s.drop (pre.length + 1)).dropEnd 1).toString)
+  else none
+
+def parseRule (s : String) : Option Rule :=
+  if s = "deny" then some .deny
+  else match stripParen "icpt" s with
+    | some b =>
+      match b.splitOn "," with
+      | [n, p, a] => (parseName n).map fun n => .icpt n p (undash a)
+      | _ => none
+    | none =>
+      match stripParen "unless-deny" s with
+      | some a => some (.unless false (undash a))
+      | none => (stripParen "unless-redir" s).map fun a => .unless true (undash a)
+
+def parseRules (s : String) : Option (List Rule) :=
+  if s = "-" then some [] else (s.splitOn "+").mapM parseRule
+
+def field (pre s : String) : Option String :=
+  if s.startsWith pre then some (s.drop pre.length).toString else none
+
+def parseObs (s : String) : Option Obs :=
+  match s.splitOn ";" with
+  | [_b, _f, rb, r0, r1] => do
+    pure { rb := ← parseRules (← field "RB=" rb), r0 := ← parseRules (← field "R0=" r0), r1 := ← parseRules (← field "R1=" r1) }
+  | _ => none
+
+def parseBind (s : String) : Option Bind :=
+  match s.splitOn ">" with
+  | [n, t] =>
+    match parseName n, t.toList with
+    | some (.proxy p), 't' :: r => some ⟨p, ((String.ofList r).toNat?).getD 9999⟩
+    | some (.proxy p), _ => some ⟨p, 9999⟩       -- a target the grammar does not know
+    | _, _ => none
+  | _ => none
+
+def parseBinds (s : String) : Option (List Bind) :=
+  if s = "-" then some [] else (s.splitOn ",").mapM parseBind
+
+/-! ### host orders -/
+
+def insertAll {α} (a : α) : List α → List (List α)
+  | [] => [[a]]
+  | b :: r => (a :: b :: r) :: (insertAll a r).map (b :: ·)
+
+def perms {α} : List α → List (List α)
+  | [] => [[]]
+  | a :: r => (perms r).flatMap (insertAll a)
+
+def hostsOf (w : World) : List Nat := (w.paths.map (·.host)).eraseDups
+def backendsOf (w : World) : List Nat := (w.paths.map (·.backend)).eraseDups
+
+/-! ### the allocation sub-protocol
+
+`alloc <rs> <re> <ops>`: ops `q<t>` AcquireAuthBackendName(target t), `k<p>.<p>..` RemoveAuthBackendExcept
+(keep the ports base+p; `k` alone keeps nothing), `d<t>.<t>..` RemoveAuthBackendByTarget, `r<rs>.<re>` new range;
+results: one per `q`: `a<k>` or `E`. -/
+
+structure AllocSt where
+  rs : Int
+  re : Int
+  binds : List Bind := []
+  out : List String := []
+
+def natList (s : String) : Option (List Nat) :=
+  if s = "" then some [] else (s.splitOn ".").mapM String.toNat?
+
+def allocOp (st : AllocSt) (op : String) : Option AllocSt :=
+  match op.toList with
+  | 'q' :: r => do
+    let t ← (String.ofList r).toNat?
+    let res := acquire st.binds st.rs st.re t
+    pure { st with binds := res.2, out := st.out ++ [match res.1 with | some p => "a" ++ toString (p - portBase) | none => "E"] }
+  | 'k' :: r => do
+    let ps ← natList (String.ofList r)
+    pure { st with binds := removeExcept (ps.map fun (k : Nat) => portBase + Int.ofNat k) st.binds }
+  | 'd' :: r => do
+    let ts ← natList (String.ofList r)
+    pure { st with binds := removeByTarget ts st.binds }
+  | 'r' :: r =>
+    match (String.ofList r).splitOn "." with
+    | [a, b] => do pure { st with rs := portBase + (← a.toInt?), re := portBase + (← b.toInt?) }
+    | _ => none
+  | _ => none
+
+/-- Spec of the allocator on an observed run: every answer is a port of the current range or
+an error while the range is full; no port is bound twice -/
+def allocOracle (out : List String) (binds : List Bind) : Option String :=
+  if !(binds.map (·.port)).Nodup then some "auth-proxy-port-bound-twice"
+  else if !(binds.map (·.target)).Nodup then some "auth-proxy-target-bound-twice"
+  else if out.any (fun s => s ≠ "E" ∧ (parseName s).isNone) then some "auth-proxy-answer-unreadable"
+  else none
+
+def handleAlloc (rs re ops impl : String) : Verdict :=
+  match rs.toInt?, re.toInt?, impl.splitOn "||" with
+  | some rs, some re, [outs, bs] =>
+    let st0 : AllocSt := { rs := portBase + rs, re := portBase + re }
+    match (ops.splitOn ",").foldlM allocOp st0, parseBinds bs with
+    | some st, some ibinds =>
+      let m := (if st.out.isEmpty then "-" else ",".intercalate st.out) ++ "||" ++ showBinds st.binds
+      let iout := if outs = "-" then [] else outs.splitOn ","
+      { model := m, agree := m = impl, oracle := allocOracle iout ibinds,
+        trivial := st.out.all (· ≠ "E") ∧ st.binds.length < 2 }
+    | _, _ => bad "alloc-parse"
+  | _, _, _ => bad "alloc"
+
+/-! ### entry -/
+
+def handle (args : List String) (impl : String) : Verdict :=
+  match args with
+  | ["alloc", rs, re, ops] =>
+    if impl = "PANIC" then { model := "-", agree := false, oracle := some "panic-in-frontend" } else
+    handleAlloc rs re ops impl
+  | [glob, ings] =>
+    match parseWorld glob ings with
+    | none => bad "parse"
+    | some w =>
+      -- Go map iteration: any order of the hosts and of the backends is a legal run
+      let outs := (perms (hostsOf w)).flatMap fun ho => (perms (backendsOf w)).map fun bo =>
+        showState w (run currentFixed w ho bo)
+      let m := outs.headD ""
+      if impl = "PANIC" then { model := m, agree := false, oracle := some "panic-in-updater" } else
+      match impl.splitOn "||" with
+      | [ps, bs] =>
+        match (ps.splitOn "|").mapM parseObs, parseBinds bs with
+        | some obs, some binds =>
+          if obs.length ≠ w.paths.length then bad "impl-paths" else
+          let agreeing := outs.find? (· = impl)
+          { model := agreeing.getD m, agree := agreeing.isSome,
+            oracle := (oracle w binds obs).orElse fun _ =>
+              if bindsOk w.rangeStart w.rangeEnd binds then none else some "auth-proxy-binds-inconsistent",
+            trivial := w.paths.all fun p => !declared p }
+        | _, _ => bad "impl-output"
+      | _ => bad "impl-output"
+  | _ => bad "C18"
 
 end HapVerif.C18
